@@ -4,7 +4,8 @@ from tools.props import _hs
 RULE = ("MC: HsManager.tla exhaustively for 4 nodes (wrong responder, untrusted CA, two-address certificate) with invariants "
         "C09_Bound / C09_Initiator. T: seeded adversarial network schedules (reordering, loss, replay of any earlier datagram, "
         "misdelivery, spoofed source, simultaneous initiators) on 4 complete nodes; every step's hostmap/pending projection and "
-        "emitted datagrams validated by TLC; distinct = traces")
+        "emitted datagrams validated by TLC; wrong responders certified for networks that overlap / are disjoint from / partly "
+        "overlap the initiator's, at the asked address's underlay address: the initiator ends with nothing installed; distinct = traces")
 ASSUMPTIONS = _hs.ASSUME_COMMON + ["lighthouse- and relay-learned paths are not part of this scenario (static hosts only)"]
 
 
@@ -16,7 +17,12 @@ def run(ctx):
     _hs.mc(ctx)
     res, tf = _hs.record(ctx)
     ctx.traces += _hs.validate(ctx, tf, relevant, strict_backoff=False)
-    ctx.require_actions('ev:Deliver', 'ev:TunSend', 'ev:Retry')
+    # the wrong responder's certificate networks as a dimension of its own (overlapping / disjoint / mixed)
+    res2 = ctx.gotest('e2e', 'TestVerif_C09Wrong', tags='verif e2e_testing', also=('net',), timeout=300, name='wrong')
+    ctx.take_mismatches(res2)
+    if not ctx.violations:
+        ctx.require_actions('ev:Deliver', 'ev:TunSend', 'ev:Retry', 'wrong-responder:answered:overlapping',
+                            'wrong-responder:answered:disjoint', 'wrong-responder:nothing-installed')
 
 
 META = {
